@@ -85,6 +85,7 @@ class BuildResult:
     def __init__(self):
         self.translator_ok = True
         self.translator_msg = ""
+        self.rules_aborted = {}          # 'names' / 'validate' -> message (behaviour tables not extractable)
         self.make_ok = True
         self.make_log = ""
         self.failed_files = []
@@ -170,6 +171,10 @@ def ensure_build(targets=None, keep_going=True):
     try:
         ok, msg = translate()
         res.translator_ok, res.translator_msg = ok, msg
+        for line in msg.splitlines():
+            m = re.match(r"RULES-ABORTED (\w+): (.*)", line)
+            if m:
+                res.rules_aborted[m.group(1)] = m.group(2)
         files = vfiles()
         stamp = os.path.join(COQ, ".filelist")
         listing = "\n".join(files)
@@ -575,6 +580,14 @@ def standard_run(rep, prop_id, targets, body, rule, exhaustive=False):
         rep.coverage["exhaustive"] = True
     support_ok = all(os.path.exists(os.path.join(COQ, t)) for t in targets)
     body(rep, support_ok and build.translator_ok)
+    for which, props in (("names", ("C10", "C06")), ("validate", ("C04", "C05", "C13", "C14", "C19"))):
+        if which in build.rules_aborted and prop_id in props:
+            rep.violation("%s:rules:%s" % (prop_id, which),
+                          "the %s rules could not be extracted from the source (%s); the model runs on the pinned table" % (
+                              which, build.rules_aborted[which][:300]),
+                          {"kind": "translator", "message": build.rules_aborted[which],
+                           "theorem": "tie of Gen/%s.v to the source" % ("NameRules" if which == "names" else "ValidateRules")},
+                          found_input=any(v[2] for v in rep.violations))
     if not build.translator_ok:
         rep.violation("%s:translator" % prop_id,
                       "the translator rejected the working tree: " + build.translator_msg[-400:],
